@@ -150,7 +150,7 @@ def canon(e):
     if k == 'index':
         b, i = canon(e[1]), canon(e[2])
         return None if b is None or i is None else f'{b}[{i}]'
-    if k == 'call' and e[1] in ('len', 'unwrap', 'clone', 'unwrap_or', 'number_of_nodes', 'get_node_degree', 'is_none', 'is_some'):
+    if k == 'call' and e[1] in ('len', 'unwrap', 'clone', 'unwrap_or', 'number_of_nodes', 'get_node_degree', 'is_none', 'is_some', 'is_nan', 'get'):
         b = canon(e[2])
         if b is None:
             return None
@@ -232,11 +232,85 @@ def emit(e, atoms, want=None):
     raise ParseError(f'unknown atom `{c or e}` (the expression mentions something the site table does not declare)')
 
 
-LEAN_TY = {'rat': 'Rat', 'nat': 'Nat', 'bool': 'Bool'}
+def emit_sc(e, atoms, want=None):
+    """generic-scalar mode (C18): f64 expressions become terms over a `Scalar α` record `S` (type 'sc'), so that the same
+    regenerated definition is compared with the model's generic code whatever arithmetic instantiates it"""
+    k = e[0]
+    c = canon(e)
+    if c is not None and c in atoms:
+        return atoms[c]
+    if k == 'path' and e[1] in ('true', 'false'):
+        return e[1], 'bool'
+    if k == 'num':
+        v = e[1]
+        if want == 'nat' and '.' not in v and 'e' not in v:
+            return f'({v} : Nat)', 'nat'
+        if float(v) == 0.0:
+            return 'S.zero', 'sc'
+        if float(v) == 1.0:
+            return 'S.one', 'sc'
+        raise ParseError(f'scalar literal {v} has no name in the Scalar record')
+    if k == 'paren':
+        t, ty = emit_sc(e[1], atoms, want)
+        return f'({t})', ty
+    if k == 'not':
+        t, ty = emit_sc(e[1], atoms, 'bool')
+        return f'(!{t})', 'bool'
+    if k == 'cast':
+        t, ty = emit_sc(e[2], atoms, 'nat')
+        if e[1] == 'f64' and ty == 'nat':
+            return f'(S.ofNat {t})', 'sc'
+        return t, ty
+    if k == 'call':
+        name, recv, args = e[1], e[2], e[3]
+        t, ty = emit_sc(recv, atoms, 'sc')
+        if name == 'powf' and len(args) == 1 and args[0][0] == 'num' and float(args[0][1]) == 2.0 and ty == 'sc':
+            return f'(S.mul {t} {t})', 'sc'
+        if name == 'abs' and not args and ty == 'sc':
+            return f'(S.abs {t})', 'sc'
+        if name == 'sqrt' and not args and ty == 'sc':
+            return f'(S.sqrt {t})', 'sc'
+        raise ParseError(f'unsupported method .{name}(..) in scalar mode')
+    if k == 'bin':
+        op = e[1]
+        if op in ('&&', '||'):
+            a, _ = emit_sc(e[2], atoms, 'bool')
+            b, _ = emit_sc(e[3], atoms, 'bool')
+            return f'({a} {op} {b})', 'bool'
+        if op == '==' and e[3][0] == 'num' and float(e[3][1]) == 0.0:
+            a, ta = emit_sc(e[2], atoms, 'sc')
+            if ta == 'sc':
+                return f'(S.isZero {a})', 'bool'
+        a, ta = emit_sc(e[2], atoms, 'sc')
+        b, tb = emit_sc(e[3], atoms, 'sc')
+        if ta == tb == 'sc':
+            f = {'+': 'add', '-': 'sub', '*': 'mul', '/': 'div'}.get(op)
+            if f:
+                return f'(S.{f} {a} {b})', 'sc'
+            if op == '<':
+                return f'(S.lt {a} {b})', 'bool'
+            if op == '>':
+                return f'(S.lt {b} {a})', 'bool'
+        raise ParseError(f'unsupported `{op}` on {ta}/{tb} in scalar mode')
+    raise ParseError(f'unknown atom `{c or e}` (scalar mode)')
+
+
+LEAN_TY = {'rat': 'Rat', 'nat': 'Nat', 'bool': 'Bool', 'sc': 'α'}
 
 # (property, name, file, regex with one group (re.S), occurrence index, params [(rust atom, lean name, type)], result type)
 DJ = 'src/algorithms/shortest_path/dijkstra.rs'
+EV = 'src/algorithms/centrality/eigenvector.rs'
 SITES = [
+    # ---- C18: eigenvector_centrality (generic-scalar mode) ----
+    ('C18', 'start', EV, r'\.map\(\|n\| \(n\.name\.clone\(\), (.*?)\)\)\s*\.collect\(\);', 0, [('nnodes', 'nnodes', 'nat')], 'sc'),
+    ('C18', 'unitWeight', EV, r'let w = match (.*?) \{\s*true => 1\.0,\s*false => edge\.weight,', 0,
+     [('weighted', 'weighted', 'bool'), ('edge.weight.is_nan()', 'isNan', 'bool')], 'bool'),
+    ('C18', 'contribution', EV, r'\*x\.get_mut\(&nbr\.name\)\.unwrap\(\) \+= (.*?);', 0, [('xlast.get(n).unwrap()', 'xn', 'sc'), ('w', 'w', 'sc')], 'sc'),
+    ('C18', 'square', EV, r'x\.values\(\)\.map\(\|v\| (.*?)\)\.sum\(\);', 0, [('v', 'v', 'sc')], 'sc'),
+    ('C18', 'normRoot', EV, r'norm = (norm\.sqrt\(\));', 0, [('norm', 'norm', 'sc')], 'sc'),
+    ('C18', 'normIsZero', EV, r'norm = match (.*?) \{\s*true => 1\.0,\s*false => norm,', 0, [('norm', 'norm', 'sc')], 'bool'),
+    ('C18', 'change', EV, r'\.map\(\|\(k, v\)\| (.*?)\)\s*\.sum\(\);', 0, [('v', 'v', 'sc'), ('xlast.get(k).unwrap()', 'xk', 'sc')], 'sc'),
+    ('C18', 'converged', EV, r'if (y < .*?) \{\s*return Ok\(x\);', 0, [('y', 'y', 'sc'), ('nnodes', 'nnodes', 'nat'), ('_tolerance', 'tol', 'sc')], 'bool'),
     # ---- C04 / C08: the relaxation step of dijkstra / dijkstra_basic, the choice between them, the fringe key ----
     ('C04', 'relaxDist', DJ, r'let vu_dist = (.*?);', 0, [('dist[v]', 'dv', 'rat'), ('cost', 'c', 'rat')], 'rat'),
     ('C04', 'relaxDistBasic', DJ, r'let vu_dist = (.*?);', 1, [('dist[v]', 'dv', 'rat'), ('cost', 'c', 'rat')], 'rat'),
@@ -320,13 +394,16 @@ def translate_site(site):
         return None, f'{name}: anchor not found in {f} (occurrence {occ} of /{pat}/)'
     text = ' '.join(ms[occ].group(1).split())
     atoms = {a: (ln, ty) for a, ln, ty in params}
+    scalar = rty == 'sc' or any(t == 'sc' for _, _, t in params)
     try:
-        lean, ty = emit(parse(text), atoms, rty)
+        lean, ty = (emit_sc if scalar else emit)(parse(text), atoms, rty)
     except ParseError as ex:
         return None, f'{name}: cannot translate `{text}` from {f}: {ex}'
     if ty != rty:
         return None, f'{name}: `{text}` has type {ty}, expected {rty}'
     binders = ' '.join(f'({ln} : {LEAN_TY[t]})' for _, ln, t in params)
+    if scalar:
+        binders = '{α : Type} (S : Scalar α) ' + binders
     return (f'/-- {f}: `{text}` -/\ndef {name} {binders} : {LEAN_TY[rty]} := {lean}\n', text), None
 
 
@@ -354,6 +431,7 @@ def formulas(prop):
             defs.append(r[0])
             texts[s[1]] = r[1]
     lean = (f'/- GENERATED by tools/formulas.py from /repo\'s current source on every {prop} run; do not edit. -/\n'
+            + ('import GraphrsModel.Model.Centrality\n' if prop == 'C18' else '') +
             f'namespace Graphrs\nnamespace Src\nnamespace {prop}\n\n' + '\n'.join(defs) + f'\nend {prop}\nend Src\nend Graphrs\n')
     changed = write_if_changed(os.path.join(GEN, f'Formulas{prop}.lean'), lean)
     return {'name': 'formulas', 'problem': '; '.join(problems) if problems else None, 'sites': texts, 'changed': changed}
